@@ -118,7 +118,11 @@ static unsigned int assemble_imm(struct instr *instruc, unsigned char ptr[]) {
     return ptr_pos;
   // now calculate the required amount of zero-bytes to pad
   bool opd0_is_16 = opd0_mode == reg16 || opd0_mode == ext16;
-  if (bytes <= DWORD_BYTES && !(bytes == 1 && opd0_is_16))
+  // a `word` memory operand takes a 16-bit immediate like a 16-bit register
+  bool mem_is_16 = instruc->mem_disp && instruc->keyword.is_word;
+  if (mem_is_16 && bytes <= 2)
+    bytes = 2 - bytes;
+  else if (bytes <= DWORD_BYTES && !(bytes == 1 && opd0_is_16))
     bytes = DWORD_BYTES - bytes;
   else if (bytes > DWORD_BYTES && bytes <= QWORD_BYTES)
     bytes = QWORD_BYTES - bytes;
